@@ -98,7 +98,9 @@ func ecdsaSuite[P curves.Point[P, B, S], B algebra.PrimeFieldElement[B], S algeb
 	{
 		one := sf.One()
 		zero := sf.Zero()
-		mk := func(what string, err error) { emit("construct", map[string]any{"suite": name, "what": what, "ok": err == nil}) }
+		mk := func(what string, err error) {
+			emit("construct", map[string]any{"suite": name, "what": what, "ok": err == nil})
+		}
 		_, err := ecdsa.NewSignature(one, one, nil)
 		mk("v_absent", err)
 		_, err = ecdsa.NewSignature(zero, one, nil)
